@@ -10,4 +10,5 @@ INVARIANT PrefixOK
 INVARIANT NoShorten
 INVARIANT LegalStop
 PROPERTY QuitNotLost
+PROPERTY SavedCountIsStream
 CHECK_DEADLOCK FALSE
